@@ -223,6 +223,8 @@ pub struct SimInput<'a> {
     pub depth: i32,
     pub max_depth: i32,
     pub alloc_calls: u32,
+    /// total heap budget the decoder asked for through `on_before_alloc_mem`
+    pub alloc_bytes: u64,
     /// A read was refused (EOF or error): the injected fault actually fired.
     pub refused: bool,
     /// `remaining_len` answered `Err` (RlMode::Err) at least once: the input itself reported a failure.
@@ -241,6 +243,7 @@ impl<'a> SimInput<'a> {
             depth: 0,
             max_depth: 0,
             alloc_calls: 0,
+            alloc_bytes: 0,
             refused: false,
             rl_err_returned: false,
             log: Log::new(record),
@@ -376,6 +379,7 @@ impl<'a> Input for SimInput<'a> {
 
     fn on_before_alloc_mem(&mut self, size: usize) -> Result<(), Error> {
         self.alloc_calls += 1;
+        self.alloc_bytes = self.alloc_bytes.saturating_add(size as u64);
         self.log.ev(ev::IN_ALLOC, size as u64, 0);
         Ok(())
     }
